@@ -4,3 +4,4 @@ import PyhfDriver.ModelOps
 import PyhfDriver.InferOps
 import PyhfDriver.PatchOps
 import PyhfDriver.WsOps
+import PyhfDriver.EventOps
